@@ -1,11 +1,17 @@
 package main
 
 import (
+	"flag"
 	"strconv"
 	"strings"
 
 	"wmverif/wh"
 )
+
+// -breaker-panicnil adds the cases of the candidate finding "breaker+panicnil" (CircuitBreaker under GODEBUG=panicnil=1
+// reports a handler that called panic(nil) as success: gobreaker v1.0.0 re-panics only when recover() != nil).  The check
+// passes the flag only while known-findings.json lists that pattern as open (see checks/c19.py).
+var withBreakerPanicNil = flag.Bool("breaker-panicnil", false, "generate the CircuitBreaker cases under GODEBUG=panicnil=1")
 
 func hx(s string) string { return wh.HexS(s) }
 
@@ -336,18 +342,91 @@ func generate(a wh.Args, o *wh.Out) []string {
 		add("delay "+c+" "+pres[rng.Intn(len(pres))]+" "+string(b), "delay.random")
 	}
 
-	// 5. Throttle against the real clock: lower bound on the time n starts take; one Throttle shared by k callers
-	add("throttle 12 1000 2000000000 1", "throttle") // 2ms period
-	add("throttle 6 2 10000000 1", "throttle")       // 5ms period
-	add("throttle 30 1000 500000000 1", "throttle")  // 0.5ms period
-	add("throttle 2 1 1000000 1", "throttle")
-	add("throttle 1 1 1000000 1", "throttle")
-	add("throttle 12 1000 2000000000 12", "throttle.concurrent")
-	add("throttle 20 1000 1000000000 4", "throttle.concurrent")
+	// 5. the same chains in a program running with GODEBUG=panicnil=1 (go.mod go < 1.21): recover() returns nil for
+	// panic(nil).  Every panic value, nil included, must still become an error under a Recoverer and escape as a panic
+	// elsewhere.  The CircuitBreaker is left out: gobreaker v1.0.0 itself swallows a nil panic in that mode (library).
+	var allN []string
+	for _, m := range all {
+		if m != "B" {
+			allN = append(allN, m)
+		}
+	}
+	pn, ps, F, S := rs[15], rs[12], rs[3], rs[0]
+	scriptsN := []string{pn, pn + ";" + S, F + ";" + pn, pn + ";" + pn + ";" + rs[2], ps + ";" + pn, pn + ";" + F + ";" + S, F + ";" + pn + ";" + S}
+	for _, mw := range allN {
+		for _, r := range []string{pn, ps, rs[13], rs[14], F, rs[5], S, rs[2]} {
+			for i, m := range msgs {
+				if i%9 == 0 {
+					add("stackn "+stackReq([]string{mw}, m, r)[6:], "stackn.depth1")
+				}
+			}
+		}
+	}
+	for _, m1 := range allN {
+		for _, m2 := range allN {
+			st := []string{m1, m2}
+			if countRetry(st) > 1 || (m1 != "R" && m2 != "R" && rng.Intn(4) != 0) {
+				continue
+			}
+			for _, sc := range scriptsN {
+				add("stackn "+stackReq(st, msgs[rng.Intn(len(msgs))], sc)[6:], "stackn.depth2")
+			}
+		}
+	}
+	nN := 1500
 	if a.Thorough() {
-		add("throttle 200 1000 1000000000 1", "throttle")
-		add("throttle 50 10 100000000 1", "throttle")
-		add("throttle 100 1000 1000000000 16", "throttle.concurrent")
+		nN = 20000
+	}
+	for i := 0; i < nN; i++ {
+		var st []string
+		for {
+			st = []string{allN[rng.Intn(len(allN))], allN[rng.Intn(len(allN))], allN[rng.Intn(len(allN))]}
+			if rng.Intn(3) != 0 {
+				st[rng.Intn(3)] = "R"
+			}
+			if countRetry(st) <= 1 {
+				break
+			}
+		}
+		add("stackn "+stackReq(st, msgs[rng.Intn(len(msgs))], scriptsN[rng.Intn(len(scriptsN))])[6:], "stackn.depth3")
+	}
+
+	if *withBreakerPanicNil {
+		for _, r := range []string{pn, ps, F, S} {
+			for i, m := range msgs {
+				if i%18 == 0 {
+					add("stackn "+stackReq([]string{"B"}, m, r)[6:], "stackn.breaker")
+				}
+			}
+		}
+		for _, st := range [][]string{{"R", "B"}, {"B", "R"}, {"Y:2", "B"}, {"B", "Y:1"}, {"T", "B"}, {"Y:2", "R", "B"}} {
+			for _, sc := range scriptsN {
+				add("stackn "+stackReq(st, msgs[rng.Intn(len(msgs))], sc)[6:], "stackn.breaker")
+			}
+		}
+	}
+
+	// 6. Throttle against the real clock: lower bound on the time n starts take; one Throttle shared by k callers;
+	// messages with a live context, with an already cancelled context, and under a Timeout (outside the Throttle)
+	// that expires while the message waits for its tick
+	add("throttle 12 1000 2000000000 1 live", "throttle") // 2ms period
+	add("throttle 6 2 10000000 1 live", "throttle")       // 5ms period
+	add("throttle 30 1000 500000000 1 live", "throttle")  // 0.5ms period
+	add("throttle 2 1 1000000 1 live", "throttle")
+	add("throttle 1 1 1000000 1 live", "throttle")
+	add("throttle 12 1000 2000000000 12 live", "throttle.concurrent")
+	add("throttle 20 1000 1000000000 4 live", "throttle.concurrent")
+	add("throttle 12 1000 2000000000 1 cancelled", "throttle.ctx_done")
+	add("throttle 12 1000 2000000000 12 cancelled", "throttle.ctx_done")
+	add("throttle 10 1000 2000000000 1 timeout", "throttle.ctx_done")
+	add("throttle 12 1000 2000000000 4 timeout", "throttle.ctx_done")
+	if a.Thorough() {
+		add("throttle 200 1000 1000000000 1 live", "throttle")
+		add("throttle 50 10 100000000 1 live", "throttle")
+		add("throttle 100 1000 1000000000 16 live", "throttle.concurrent")
+		add("throttle 100 1000 1000000000 8 cancelled", "throttle.ctx_done")
+		add("throttle 60 1000 1000000000 3 timeout", "throttle.ctx_done")
+		add("throttle 8 4 1000000000 2 timeout", "throttle.ctx_done") // the README's rate: 1 per 250ms
 	}
 	return reqs
 }
